@@ -62,6 +62,45 @@ func genLpm(cfg Config, emit func(string, bool, []string)) {
 		add := func(f string, a ...any) { ops = append(ops, fmt.Sprintf(f, a...)) }
 		nv, ni := 1, 0
 		kinds := []string{"all", "prefix", "lb"}
+		if c%20 == 13 {
+			// a LowerBound iterator whose stack holds 33-45 entries (a larger sibling at every level of a
+			// 16-byte search path), read with All() twice, Next() in between and after, from the
+			// transaction and from the committed trie
+			depth := 33 + r.IntN(13)
+			zero := make([]byte, 16)
+			add("txn 0")
+			for i := 0; i < depth; i++ {
+				k := make([]byte, 16)
+				k[i/8] = 0x80 >> (i % 8)
+				add("ins %s 128 %d", hx(k), 100+i)
+				if i%5 == 0 {
+					k2 := append([]byte{}, k...)
+					k2[15] |= 1
+					add("ins %s 128 %d", hx(k2), 200+i)
+				}
+			}
+			add("ins %s 128 7", hx(zero))
+			add("keepiter lb %s 128", hx(zero))
+			ni++
+			add("iterall %d", ni-1)
+			add("iterall %d", ni-1)
+			add("next %d 3", ni-1)
+			add("iterall %d", ni-1)
+			add("commit")
+			nv++
+			add("vkeepiter %d lb %s 128", nv-1, hx(zero))
+			ni++
+			add("next %d 2", ni-1)
+			add("iterall %d", ni-1)
+			add("iterall %d", ni-1)
+			add("next %d 50", ni-1)
+			add("vkeepiter %d lb %s %d", nv-1, hx(zero), 3+r.IntN(20))
+			ni++
+			add("iterall %d", ni-1)
+			add("iterall %d", ni-1)
+			emit("lpm deep-lowerbound-stack maxbytes=16", true, ops)
+			continue
+		}
 		if c%10 == 4 {
 			// two transaction objects: the first one is re-targeted (Txn.Reuse) at a trie that the
 			// second one committed; its writes never show in that trie
